@@ -614,6 +614,161 @@ def gen_all():
     g.const("templates/async_client_impl.rs", "QUERY_BUFFER_SIZE", "ASYNC_QUERY_BUFFER_SIZE")
     e("")
 
+    # ---- client struct shapes for the auto-trait model (C19) ---------------------------------------
+    TY_MAP = [
+        (r"ClientConfig", "Ty.leaf .clientConfig"),
+        (r"UdpSocket", "Ty.leaf .udpSocket"),
+        (r"TcpStream", "Ty.leaf .tcpStream"),
+        (r"Vec<u8>", "Ty.leaf .vecU8"),
+        (r"MsgBuf", "Ty.leaf .arrayVecU8"),
+        (r"ClientImpl", "Ty.named .clientImpl"),
+        (r"Type", "Ty.leaf .plain"), (r"Class", "Ty.leaf .plain"), (r"u16", "Ty.leaf .plain"), (r"usize", "Ty.leaf .plain"),
+        (r"Instant", "Ty.leaf .plain"), (r"Duration", "Ty.leaf .plain"),
+        (r"str", "Ty.leaf .str"), (r"\[u8\]", "Ty.leaf .sliceU8"),
+    ]
+
+    def ty_of(text):
+        t = text.strip()
+        m = re.fullmatch(r"&\s*(?:'\w+\s+)?mut\s+(.*)", t)
+        if m:
+            return "(Ty.ref true %s)" % ty_of(m.group(1))
+        m = re.fullmatch(r"&\s*(?:'\w+\s+)?(.*)", t)
+        if m:
+            return "(Ty.ref false %s)" % ty_of(m.group(1))
+        for pat, lean in TY_MAP:
+            if re.fullmatch(pat, t):
+                return "(%s)" % lean
+        return "(Ty.unknown %s)" % json.dumps(t)
+
+    def struct_fields(path, name, lean_name):
+        def go():
+            src = strip_comments(read(path))
+            m = re.search(r"struct\s+%s\s*(?:<[^>]*>)?\s*\{" % name, src)
+            if not m:
+                raise ParseError("struct %s not found in %s" % (name, path))
+            body = src[m.end():matching_brace(src, m.end() - 1) - 1]
+            fields = []
+            for part in body.split(","):
+                part = part.strip()
+                if not part:
+                    continue
+                part = re.sub(r"^pub(\([^)]*\))?\s+", "", part)
+                if ":" not in part:
+                    raise ParseError("struct %s: cannot parse field %r" % (name, part))
+                fname, ftype = part.split(":", 1)
+                fields.append((fname.strip(), " ".join(ftype.split())))
+            g.emit("/-- `%s` : `struct %s` fields: %s -/" % (path, name, "; ".join("%s: %s" % f for f in fields)))
+            g.emit("def %s : List Ty := [%s]" % (lean_name, ", ".join(ty_of(t) for _, t in fields)))
+        g.attempt("%s:struct %s" % (path, name), go)
+
+    e("/-- type shapes for the auto-trait model (leaf classes in Rsdns/Model/AutoTrait.lean) -/")
+    e("inductive Leaf where")
+    e("  | plain | clientConfig | udpSocket | tcpStream | vecU8 | arrayVecU8 | str | sliceU8")
+    e("deriving DecidableEq, Repr")
+    e("inductive SName where")
+    e("  | client | clientImpl | clientCtx")
+    e("deriving DecidableEq, Repr")
+    e("inductive Ty where")
+    e("  | leaf (l : Leaf) | ref (mutable : Bool) (t : Ty) | named (n : SName) | unknown (text : String)")
+    e("deriving Repr")
+    struct_fields("src/clients/std/client_impl.rs", "ClientImpl", "STD_CLIENT_IMPL")
+    struct_fields("src/clients/std/client_impl.rs", "ClientCtx", "STD_CLIENT_CTX")
+    struct_fields("templates/async_client_impl.rs", "ClientImpl", "ASYNC_CLIENT_IMPL")
+    struct_fields("templates/async_client_impl.rs", "ClientCtx", "ASYNC_CLIENT_CTX")
+    struct_fields("templates/client.rs", "Client", "CLIENT")
+    e("")
+
+    # ---- allocation-site inventory (C20) -------------------------------------------------------
+    ALLOC_RE = re.compile(
+        r"Vec::from|Vec::with_capacity|Vec::new|\bvec!|extend_from_slice|String::from|String::new|String::with_capacity|"
+        r"\.to_string\(|\.to_owned\(|\.to_vec\(|format!|Box::new|\.collect\(|(?<!arr)\.push_str\(|(?<!arr)\.push\(|\.reserve\(")
+    FNS = [
+        ("src/bytes/cursor.rs", ["new", "with_pos", "clone_with_pos", "window", "close_window", "set_pos", "skip", "len",
+                                 "u16_be", "u32_be", "u128_be", "u8", "slice", "bound_error"]),
+        ("src/bytes/reader.rs", ["read"]),
+        ("src/message/reader/labels.rs", ["next_label", "skip_next_label", "next_impl", "skip_impl", "read_domain_name",
+                                           "skip_domain_name", "skip_question", "skip_rr"]),
+        ("src/names/utils.rs", ["check_label_bytes", "check_name_bytes"]),
+        ("src/names/inline_name.rs", ["append_label_bytes", "set_root", "eq", "cmp", "hash"]),
+        ("src/names/name.rs", ["append_label_bytes", "set_root"]),
+        ("src/message/character_string.rs", ["read_character_string"]),
+        ("src/message/header.rs", ["read"]),
+        ("src/message/question.rs", ["read"]),
+        ("src/message/reader/question_ref.rs", ["read"]),
+        ("src/message/reader/name_ref.rs", ["labels", "eq", "ne"]),
+        ("src/message/reader/section_tracker.rs", ["set", "next_section", "section_offset", "seek", "section_read",
+                                                    "question_read", "records_left", "records_left_in", "questions_left"]),
+        ("src/message/reader/message_reader/reader.rs", [
+            "new", "header", "header_impl", "seek", "seek_impl", "skip_section_impl", "questions_count", "question",
+            "question_ref", "the_question", "the_question_ref", "skip_questions", "skip_questions_impl", "records_count",
+            "records_count_in", "record_marker", "marker_impl", "raw_marker_impl", "record_header_ref",
+            "record_header_ref_impl", "record_header", "record_header_impl", "skip_record_data", "skip_record_data_impl",
+            "record_data_bytes", "record_data", "opt_record", "opt_record_impl", "record_data_bytes_at", "record_data_at",
+            "name_ref_at", "calc_section"]),
+        ("src/message/reader/message_iterator.rs", ["new", "question", "questions", "records", "section_offset"]),
+        ("src/message/reader/questions.rs", ["read"]),
+        ("src/message/reader/records.rs", ["read", "read_impl"]),
+        ("src/records/opt.rs", ["from_msg"]),
+        ("src/records/record_set.rs", ["from_msg", "extract_rrset", "extract_cname", "read_answer_headers", "read_opt"]),
+    ]
+
+    def alloc_table():
+        rows = []
+        for path, fns in FNS:
+            src = strip_comments(read(path))
+            # test modules do not count
+            src = re.split(r"#\[cfg\(test\)\]\s*mod\s+tests?\s*\{", src)[0]
+            for fn in fns:
+                try:
+                    _, _, body = find_fn_body(src, fn)
+                except ParseError:
+                    raise ParseError("fn %s not found in %s" % (fn, path))
+                n = len(ALLOC_RE.findall(body))
+                rows.append((path.replace("src/", "").replace(".rs", "") + "::" + fn, n))
+        # the macro files: bodies are macro arms, scan them whole
+        for path, label in [("src/message/reader/labels/macros.rs", "labels/macros"),
+                            ("src/message/reader/message_reader/macros.rs", "message_reader/macros"),
+                            ("src/bytes/macros.rs", "bytes/macros")]:
+            rows.append((label, len(ALLOC_RE.findall(strip_comments(read(path))))))
+        # typed decoders: one row per record-data type (the impl block that follows `for Cursor<'_>`)
+        src = strip_comments(read("src/records/data/rfc1035.rs")) + strip_comments(read("src/records/data/rfc3596.rs"))
+        for ty in ["A", "Aaaa", "Hinfo", "Wks", "Minfo", "Mx", "Null", "Soa", "Txt"]:
+            m = re.search(r"impl\s+RrDataReader<%s>\s+for\s+Cursor<'_>\s*\{" % ty, src)
+            if not m:
+                raise ParseError("RrDataReader<%s> not found" % ty)
+            end = matching_brace(src, m.end() - 1)
+            rows.append(("rdata::" + ty, len(ALLOC_RE.findall(src[m.end():end]))))
+        msrc = strip_comments(read("src/records/data/macros.rs"))
+        rows.append(("rdata::rr_dn_data", len(ALLOC_RE.findall(msrc))))
+        # the Error type must not own heap data on these paths: only IoError may
+        esrc = strip_comments(read("src/errors.rs"))
+        m = re.search(r"pub\s+enum\s+Error\s*\{", esrc)
+        body = esrc[m.end():matching_brace(esrc, m.end() - 1)]
+        heapy = len(re.findall(r"\bString\b|\bVec<|\bBox<", body))
+        rows.append(("errors::Error(heap fields)", heapy))
+        def ident(name):
+            parts = name.replace("(heap fields)", "_heap_fields").split("::")
+            stem = parts[0].split("/")[-1] if len(parts) > 1 else parts[0].replace("/", "_")
+            rest = "_".join(parts[1:]) if len(parts) > 1 else ""
+            return re.sub(r"[^A-Za-z0-9_]", "_", (stem + "_" + rest) if rest else stem)
+        ids = [(ident(n), n, c) for n, c in rows]
+        if len(set(i for i, _, _ in ids)) != len(ids):
+            raise ParseError("allocation inventory: identifier clash")
+        g.emit("/-- the Rust functions (and macro files) whose bodies are scanned for allocating constructs:")
+        g.emit("    Vec::from/with_capacity/new, vec!, extend_from_slice, String::from/new, to_string, to_owned, to_vec,")
+        g.emit("    format!, Box::new, collect, push/push_str (not on ArrayString `arr`), reserve. -/")
+        g.emit("inductive RustFn where")
+        for i, n, c in ids:
+            g.emit("  | %s  -- %s" % (i, n))
+        g.emit("deriving DecidableEq, Repr")
+        g.emit("")
+        g.emit("/-- number of allocating constructs found in the body of each function -/")
+        g.emit("def allocSites : RustFn → Nat")
+        for i, n, c in ids:
+            g.emit("  | .%s => %d" % (i, c))
+    g.attempt("allocation-site inventory", alloc_table)
+    e("")
+
     e("/-- items the translator could not find or parse (empty on a healthy tree) -/")
     e("def missing : List String := [%s]" % ", ".join(json.dumps(m) for m in g.missing))
     e("")
